@@ -101,7 +101,18 @@ pub struct Cfg {
   pub odd_ids: bool,
 }
 
-const ODD_IDS: [&str; 8] = ["d0", "D0", " d0", "d0 ", "d\u{e9}\u{4e16}", "d\t1", "a/b\\c\"q\"", "dddddddddddddddddddddddddddddddddddddddddddddddddddddddddddddddddddddddddddddddd"];
+const ODD_IDS: [&str; 10] = [
+  "d0",
+  "D0",
+  " d0",
+  "d0 ",
+  "d\u{e9}\u{4e16}",
+  "d\t1",
+  "a/b\\c\"q\"",
+  "dddddddddddddddddddddddddddddddddddddddddddddddddddddddddddddddddddddddddddddddd",
+  "d\n2",
+  "xyzxyzxyzxyzxyzxyzxyzxyzxyzxyzxyzxyzxyzxyzxyzxyzxyzxyzxyzxyzxyzxyzxyzxyzxyzxyzxyzxyzxyzxyzxyzxyzxyzxyzxyzxyzxyzxyzxyzxyzxyzxyzxyzxyzxyzxyzxyzxyzxyzxyzxyzxyzxyzxyzxyzxyzxyzxyzxyzxyzxyzxyzxyzxyzxyzxyzxyzxyzxyzxyzxyzxyzxyzxyzxyzxyzxyzxyzxyzxyzxyzxyzxyzxyzxyzxyzxyzxyzxyzxyzxyzxyzxyzxyzxyzxyzxyzxyzxyzxyzxyzxyzxyzxyzxyzxyzxyzxyzxyzxyzxyzxyzxyzxyzxyzxyzxyzxyzxyzxyzxyzxyzxyzxyzxyzxyzxyzxyzxyzxyzxyzxyzxyzxyzxyzxyzxyzxyzxyzxyzxyzxyzxyzxyzxyzxyzxyzxyzxyzxyzxyzxyzxyzxyzxyzxyzxyzxyzxyzxyzxyzxyzxyzxyzxyzxyzxyzxyzxyzxyzxyzxyz",
+];
 
 pub fn id_names(cfg: &Cfg) -> Vec<String> {
   if cfg.odd_ids {
@@ -204,7 +215,8 @@ pub fn make_doc(profile: Profile, id: &str, ver: u64) -> Document {
     return Document { fields };
   }
   if is_big(ver) {
-    let extra = 300 + (nextr() % 6) as usize * 400;
+    // one long document in five is very long (beyond 64 KiB of stored text)
+    let extra = (300 + (nextr() % 6) as usize * 400) * if ver % 5 == 0 { 6 } else { 1 };
     let span = 50 + (nextr() % 4000);
     for i in 0..extra {
       words.push(format!("w{}", (nextr() % span) + (i as u64 % 7)));
@@ -804,6 +816,7 @@ pub struct Session {
   pub writers: BTreeMap<usize, IndexWriter>,
   pub readers: BTreeMap<usize, IndexReader>,
   pub marks: BTreeMap<usize, searchlite_core::api::writer::WriterSavepoint>,
+  pub reopens: std::cell::Cell<u64>,
 }
 
 pub fn index_options(cfg: &Cfg, root: &Path, create: bool) -> IndexOptions {
@@ -946,6 +959,7 @@ impl Session {
       writers: BTreeMap::new(),
       readers: BTreeMap::new(),
       marks: BTreeMap::new(),
+      reopens: std::cell::Cell::new(0),
     };
     let sch = schema(cfg.profile);
     let opts = index_options(cfg, root, true);
@@ -976,6 +990,7 @@ impl Session {
       writers: BTreeMap::new(),
       readers: BTreeMap::new(),
       marks: BTreeMap::new(),
+      reopens: std::cell::Cell::new(0),
     })
   }
 
@@ -998,6 +1013,7 @@ impl Session {
       writers: BTreeMap::new(),
       readers: BTreeMap::new(),
       marks: BTreeMap::new(),
+      reopens: std::cell::Cell::new(0),
     })
   }
 
@@ -1018,11 +1034,16 @@ impl Session {
       writers: BTreeMap::new(),
       readers: BTreeMap::new(),
       marks: BTreeMap::new(),
+      reopens: std::cell::Cell::new(0),
     })
   }
 
   pub fn open_fresh_index(&self) -> Result<Index, Outcome> {
-    let opts = index_options(&self.cfg, &self.root, false);
+    // every other reopen passes create_if_missing, as an application that
+    // "opens or creates" would (the index exists: it must simply be opened)
+    let n = self.reopens.get();
+    self.reopens.set(n + 1);
+    let opts = index_options(&self.cfg, &self.root, n % 2 == 1);
     if let Some(c) = &self.custom {
       let c = c.clone();
       return guarded(|| Index::open_with_storage(opts, c));
